@@ -22,21 +22,24 @@ Import ListNotations.
 Record GPc (gs : nat -> group) (ng : nat) : Prop := {
   p1 : forall k l, head (gs k) = HList l -> NoDup l;
   p2 : forall k, k < ng -> refs (gs k) = 0 -> 1 <= gphase (gs k);
-  p3 : forall p, S p < ng -> linked (gs p) = true \/ gphase (gs p) = 3
+  p3 : forall p, S p < ng -> linked (gs p) = true \/ gphase (gs p) = 3;
+  p4 : forall k, gphase (gs k) = 3 -> linked (gs k) = false
 }.
 Definition GP (g : shared) : Prop := GPc (grp g) (ngrp g).
 
 Lemma GP_init : GP rw_init.
-Proof. constructor; cbn; intros; try lia. injection H as <-. constructor. Qed.
+Proof. constructor; cbn; intros; try lia; try reflexivity. injection H as <-. constructor. Qed.
 
 Lemma GP_fsetg gs ng k gr : GPc gs ng ->
   (forall l, head gr = HList l -> NoDup l) ->
   (k < ng -> refs gr = 0 -> 1 <= gphase gr) ->
   (S k < ng -> linked gr = true \/ gphase gr = 3) ->
+  (gphase gr = 3 -> linked gr = false) ->
   GPc (fset gs k gr) ng.
 Proof.
-  intros [P1 P2 P3] H1 H2 H3. constructor.
+  intros [P1 P2 P3 P4] H1 H2 H3 H4. constructor.
   - intros j l. unfold fset. destruct (Nat.eqb_spec j k); subst; eauto.
+  - intros j. unfold fset. destruct (Nat.eqb_spec j k); subst; eauto.
   - intros j. unfold fset. destruct (Nat.eqb_spec j k); subst; eauto.
   - intros j. unfold fset. destruct (Nat.eqb_spec j k); subst; eauto.
 Qed.
@@ -45,9 +48,10 @@ Lemma GP_new gs gs' ng : GPc gs ng ->
   (forall p, S p = ng -> linked (gs' p) = true) ->
   (forall j, j <> ng -> head (gs' j) = head (gs j) /\ refs (gs' j) = refs (gs j) /\ gphase (gs' j) = gphase (gs j) /\
                         (linked (gs j) = true -> linked (gs' j) = true)) ->
-  head (gs' ng) = HList [] -> refs (gs' ng) <> 0 -> GPc gs' (S ng).
+  head (gs' ng) = HList [] -> refs (gs' ng) <> 0 ->
+  (forall j, gphase (gs' j) = 3 -> linked (gs' j) = false) -> GPc gs' (S ng).
 Proof.
-  intros [P1 P2 P3] Hl Ho Hh Hr. constructor.
+  intros [P1 P2 P3 P4] Hl Ho Hh Hr H4. constructor; [| | |exact H4].
   - intros k l E. destruct (Nat.eq_dec k ng) as [->|Hne].
     + rewrite Hh in E. injection E as <-. constructor.
     + destruct (Ho k Hne) as [E1 _]. rewrite E1 in E. eauto.
@@ -65,10 +69,11 @@ Proof.
   set (k := tgrp (tok g e)) in *.
   assert (Hp0 : gphase (grp g k) = 0).
   { destruct (gphase (grp g k)) eqn:E; [reflexivity|]. pose proof (a8 _ _ _ _ _ _ HI k Hk ltac:(lia)). lia. }
-  apply GP_fsetg; [exact HP| | |].
+  apply GP_fsetg; [exact HP| | | |].
   - intros l. rewrite rel_grp_head. apply (p1 _ _ HP).
   - intros _. rewrite rel_grp_refs. unfold rel_grp. destruct (Nat.eqb_spec (pred (refs (grp g k))) 0); cbn; [lia|intros; lia].
   - intros Hs. rewrite rel_grp_linked. destruct (p3 _ _ HP k Hs) as [E|E]; [left; exact E|lia].
+  - unfold rel_grp. destruct (Nat.eqb (pred (refs (grp g k))) 0); cbn; [discriminate|lia].
 Qed.
 
 Lemma GP_do_rel t g e rest : GI g -> GP g -> alive (tst (tok g e)) = true -> GP (fst (do_rel t g e rest)).
@@ -89,29 +94,31 @@ Proof.
     apply is_starting_spec in Es.
     destruct (head (grp g (tgrp (tok g e)))) as [|l] eqn:Eh; [exact H|].
     destruct (nxt_eqb nx (hptr (HList l)) && negb sp); [|exact H].
-    cbn [fst]. unfold GP, set_tst, upd_grp. cbn. apply GP_fsetg; [exact H| | |]; cbn.
+    cbn [fst]. unfold GP, set_tst, upd_grp. cbn. apply GP_fsetg; [exact H| | | |]; cbn.
     + intros l0 E. injection E as <-. constructor; [|eapply (p1 _ _ H); eauto].
       intros Hin. destruct (a10 _ _ _ _ _ _ HI _ _ _ Eh Hin) as [Hq _]. congruence.
     + apply (p2 _ _ H).
     + apply (p3 _ _ H).
+    + apply (p4 _ _ H).
   - destruct (is_granting t (tst (tok g e))); cbn [negb]; [|exact H]. cbn [fst].
     destruct (tuse (tok g e)); exact H.
   - destruct (owned_by t (tst (tok g e))) eqn:Eo; cbn [negb]; [|exact H].
     destruct (owned_alive _ _ Eo). apply GP_do_rel; auto.
   - destruct (Nat.eqb (gphase (grp g k)) 1 && Nat.eqb (gown (grp g k)) t) eqn:Eg; cbn [negb]; [|exact H].
     apply andb_true_iff in Eg. destruct Eg as [Eg _]. apply Nat.eqb_eq in Eg.
-    cbn [fst]. apply GP_vdec. unfold GP, upd_grp. cbn. apply GP_fsetg; [exact H| | |]; cbn.
+    cbn [fst]. apply GP_vdec. unfold GP, upd_grp. cbn. apply GP_fsetg; [exact H| | | |]; cbn.
     + apply (p1 _ _ H).
     + intros; lia.
     + intros Hs. destruct (p3 _ _ H k Hs) as [E|E]; [left; exact E|lia].
+    + discriminate.
   - destruct (Nat.eqb (gphase (grp g k)) 2 && Nat.eqb (gown (grp g k)) t) eqn:Eg; cbn [negb]; [|exact H].
-    destruct (linked (grp g k)); cbn [fst]; unfold GP, upd_grp, new_tok; cbn;
-      (apply GP_fsetg; [exact H| | |]; cbn; [apply (p1 _ _ H)|intros; lia|intros; right; reflexivity]).
+    destruct (linked (grp g k)) eqn:El; cbn [fst]; unfold GP, upd_grp, new_tok; cbn;
+      (apply GP_fsetg; [exact H| | | |]; cbn; [apply (p1 _ _ H)|intros; lia|intros; right; reflexivity|intros _; try reflexivity; exact El]).
   - destruct (match tmp with None => Nat.eqb k 0 | Some e => is_done t (tst (tok g e)) && Nat.eqb (tgrp (tok g e)) k end);
       cbn [negb]; [|exact H].
     destruct (head (grp g k)) as [|l] eqn:Eh; [exact H|].
-    cbn [fst]. unfold GP, upd_grp. cbn. apply GP_fsetg; [exact H| | |]; cbn;
-      [discriminate|apply (p2 _ _ H)|apply (p3 _ _ H)].
+    cbn [fst]. unfold GP, upd_grp. cbn. apply GP_fsetg; [exact H| | | |]; cbn;
+      [discriminate|apply (p2 _ _ H)|apply (p3 _ _ H)|apply (p4 _ _ H)].
   - destruct (malive g || negb (mvheld g)); cbn [fst]; [exact H|]. apply GP_vdec. exact H.
 Qed.
 
@@ -121,22 +128,29 @@ Proof.
   - exact H.
   - destruct (malive g) eqn:Eal; cbn [negb]; [|exact H].
     assert (Hjoin : forall k, GPc (fset (grp g) k (set_refs (grp g k) (S (refs (grp g k))))) (ngrp g)).
-    { intros k. apply GP_fsetg; [exact H| | |]; cbn; [apply (p1 _ _ H)|intros _ E; discriminate|apply (p3 _ _ H)]. }
+    { intros k. apply GP_fsetg; [exact H| | | |]; cbn; [apply (p1 _ _ H)|intros _ E; discriminate|apply (p3 _ _ H)|apply (p4 _ _ H)]. }
     assert (Hlink : forall p r, mstate g = Some p -> r <> 0 ->
               GPc (fset (fset (grp g) p (set_linked (grp g p) true)) (ngrp g) (newg kd r)) (S (ngrp g))).
     { intros p r Ems Hr. pose proof (a6 _ _ _ _ _ _ HI p Ems) as Hp.
-      apply GP_new with (gs := grp g); [exact H| | | |].
+      assert (Hp0 : gphase (grp g p) = 0).
+      { assert (Hr1 : 1 <= refs (grp g p)).
+        { rewrite (a2 _ _ _ _ _ _ HI p) by lia. rewrite Ems. cbn. rewrite Nat.eqb_refl. cbn. lia. }
+        destruct (gphase (grp g p)) eqn:E; [reflexivity|]. pose proof (a8 _ _ _ _ _ _ HI p ltac:(lia) ltac:(lia)). lia. }
+      apply GP_new with (gs := grp g); [exact H| | | | |].
       - intros q Hq. assert (q = p) by lia. subst q. rewrite fset_other by lia. rewrite fset_same. reflexivity.
       - intros j Hj. rewrite fset_other by exact Hj. unfold fset. destruct (Nat.eqb_spec j p); subst; cbn; auto.
       - rewrite fset_same. reflexivity.
-      - rewrite fset_same. exact Hr. }
+      - rewrite fset_same. exact Hr.
+      - intros j. unfold fset. destruct (Nat.eqb_spec j (ngrp g)); [cbn; discriminate|].
+        destruct (Nat.eqb_spec j p); subst; cbn; [lia|apply (p4 _ _ H)]. }
     assert (Hfirst : forall r, mstate g = None -> r <> 0 -> GPc (fset (grp g) (ngrp g) (newg kd r)) (S (ngrp g))).
     { intros r Ems Hr. pose proof (a6' _ _ _ _ _ _ HI Ems Eal) as Hn.
-      apply GP_new with (gs := grp g); [exact H| | | |].
+      apply GP_new with (gs := grp g); [exact H| | | | |].
       - intros q Hq. lia.
       - intros j Hj. rewrite fset_other by exact Hj. auto.
       - rewrite fset_same. reflexivity.
-      - rewrite fset_same. exact Hr. }
+      - rewrite fset_same. exact Hr.
+      - intros j. unfold fset. destruct (Nat.eqb_spec j (ngrp g)); [cbn; discriminate|apply (p4 _ _ H)]. }
     destruct kd, (mprev g), (mstate g) as [p|] eqn:Ems; cbn [fst]; unfold GP, upd_grp, new_tok; cbn;
       first [ apply Hjoin | apply Hlink; [reflexivity|discriminate] | apply Hfirst; [reflexivity|discriminate] ].
   - destruct (Nat.ltb e (ntok g) && is_sender (tst (tok g e))); exact H.
@@ -144,7 +158,7 @@ Proof.
   - destruct (Nat.ltb e (ntok g) && kind_eqb (gkind (grp g (tgrp (tok g e)))) KR &&
               (is_sender (tst (tok g e)) || is_live (tst (tok g e)))); [|exact H].
     cbn [fst]. unfold GP, upd_grp, new_tok. cbn.
-    apply GP_fsetg; [exact H| | |]; cbn; [apply (p1 _ _ H)|intros _ E; discriminate|apply (p3 _ _ H)].
+    apply GP_fsetg; [exact H| | | |]; cbn; [apply (p1 _ _ H)|intros _ E; discriminate|apply (p3 _ _ H)|apply (p4 _ _ H)].
   - destruct (Nat.ltb e (ntok g) && is_live (tst (tok g e))) eqn:Eg; [|exact H].
     apply andb_true_iff in Eg. destruct Eg as [_ Es]. apply is_live_spec in Es.
     apply GP_do_rel; auto. rewrite Es. reflexivity.
@@ -1538,4 +1552,41 @@ Proof.
   intros Hc g ls.
   assert (H2 : Inv2 g ls) by (apply (Inv2_run sched (rw_init, rw_locals)); [split; [exact Inv_init|exact Conv_init]|exact Hc]).
   destruct H2 as [_ [C1 C2 C3 C4 C5]]. auto.
+Qed.
+
+(* ---- the hypothesis of rw_progress in terms of references: with every thread idle, "no live reference (sender,
+   operation state, wrapper) to an earlier shared state" implies that the earlier shared states have count 0 *)
+Lemma idle_released g ls : Inv2 g ls -> (forall t, ls t = []) -> forall k, k < ngrp g ->
+  (forall e', alive (tst (tok g e')) = true -> k <= tgrp (tok g e')) ->
+  forall j, j < k -> refs (grp g j) = 0.
+Proof.
+  intros [HInv [_ _ C3 _ _]] Hidle k Hk Hno.
+  destruct (i_gl _ _ HInv) as [HI _]. pose proof (i_gp _ _ HInv) as HP.
+  assert (Hbase : forall j, j < k -> refs (grp g j) = b2n (lk (grp g) j)).
+  { intros j Hj. rewrite (a2 _ _ _ _ _ _ HI j) by lia.
+    rewrite cnt_false.
+    - destruct (mstate g) as [m|] eqn:Ems; cbn [ms_is b2n]; [|reflexivity].
+      pose proof (a6 _ _ _ _ _ _ HI m Ems). destruct (Nat.eqb_spec m j); [lia|reflexivity].
+    - intros i _. unfold holdsf. destruct (alive (tst (tok g i))) eqn:Ea; [|apply andb_false_r].
+      pose proof (Hno i Ea). destruct (Nat.eqb_spec (tgrp (tok g i)) j); [lia|reflexivity]. }
+  induction j as [|q IH]; intros Hj; rewrite (Hbase _ Hj); [reflexivity|].
+  cbn [lk]. specialize (IH ltac:(lia)).
+  pose proof (p2 _ _ HP q ltac:(lia) IH) as Hph.
+  destruct (Nat.eq_dec (gphase (grp g q)) 3) as [E3|E3]; [rewrite (p4 _ _ HP q E3); reflexivity|].
+  pose proof (C3 q ltac:(lia) Hph E3) as X. rewrite Hidle in X. destruct X.
+Qed.
+
+Theorem rw_progress_refs sched : contract_from (rw_init, rw_locals) sched ->
+  let g := fst (rw_run sched) in let ls := snd (rw_run sched) in
+  (forall t, ls t = []) ->
+  forall e, tstarted (tok g e) = true -> (forall e', alive (tst (tok g e')) = true -> tgrp (tok g e) <= tgrp (tok g e')) ->
+  In e (grant_toks (elog g)).
+Proof.
+  intros Hc g ls Hidle e Hst Hno.
+  assert (H2 : Inv2 g ls) by (apply (Inv2_run sched (rw_init, rw_locals)); [split; [exact Inv_init|exact Conv_init]|exact Hc]).
+  pose proof H2 as [HInv _]. destruct (i_gl _ _ HInv) as [HI [_ [HB _]]].
+  destruct (b4 _ _ _ HB e Hst) as [Hp|Hg]; [|exact Hg].
+  assert (Ha : alive (tst (tok g e)) = true) by (destruct (tst (tok g e)); try discriminate; reflexivity).
+  apply (rw_progress sched Hc Hidle e Hst).
+  apply (idle_released g ls H2 Hidle _ (a1 _ _ _ _ _ _ HI e Ha) Hno).
 Qed.
